@@ -400,3 +400,31 @@ def unparse(n):
         return ast.unparse(n)
     except Exception:
         return "<?>"
+
+
+def is_private_sentinel(db, mod, name):
+    """`NAME = object()` bound once at module level and used only as a default (of next / getattr / .get / .pop) or as an
+    operand of `is` / `is not`, and not imported elsewhere: nothing but that default can ever be identical to it"""
+    m = db.modules.get(mod)
+    stmts = m.assigned.get(name, []) if m is not None else []
+    if not (len(stmts) == 1 and isinstance(stmts[0], ast.Assign) and isinstance(stmts[0].value, ast.Call) and not stmts[0].value.args
+            and not stmts[0].value.keywords and unparse(stmts[0].value.func) == "object"):
+        return False
+    allowed = set()
+    for n in ast.walk(m.tree):
+        if isinstance(n, ast.Call) and unparse(n.func) in ("next", "getattr") and len(n.args) >= 2:
+            allowed.add(id(n.args[-1]))
+        if isinstance(n, ast.Call) and isinstance(n.func, ast.Attribute) and n.func.attr in ("get", "pop") and len(n.args) == 2:
+            allowed.add(id(n.args[1]))
+        if isinstance(n, ast.Compare) and all(isinstance(o, (ast.Is, ast.IsNot)) for o in n.ops):
+            for x in [n.left] + list(n.comparators):
+                allowed.add(id(x))
+    for n in ast.walk(m.tree):
+        if isinstance(n, ast.Name) and n.id == name and isinstance(n.ctx, ast.Load) and id(n) not in allowed:
+            return False
+        if isinstance(n, ast.Global) and name in n.names:
+            return False
+    for m2 in db.modules.values():
+        if m2 is not m and any(isinstance(n, ast.ImportFrom) and any(a.name == name for a in n.names) for n in ast.walk(m2.tree)):
+            return False
+    return True
